@@ -170,6 +170,17 @@ def x_time(e, st, args, kwargs):
     yield st, (z3.Real("$now") + slept[0] if slept else z3.Real("$now"))
 
 
+def x_monotonic(e, st, args, kwargs):
+    """monotonic clock: every reading is a fresh real not smaller than the previous one; readings are logged in ghost('mono')"""
+    e.used_assumptions.add("time.monotonic(): successive readings are arbitrary non-decreasing reals")
+    r = z3.Real(e.fresh("mono"))
+    prev = st.ghost.get("mono")
+    s1 = st
+    if prev:
+        s1 = s1.assume(r >= prev[-1])
+    yield s1.ghost_append("mono", r), r
+
+
 def x_sleep(e, st, args, kwargs):
     e.used_assumptions.add("time.sleep(d) advances the ghost clock by exactly d seconds")
     d = e.to_real(args[0])
@@ -379,7 +390,7 @@ def install_default_models(e):
         "typing.cast": x_cast, "dataclasses.replace": x_replace, "collections.deque": x_deque,
         "math.trunc": x_trunc, "math.atan2": x_atan2, "math.floor": lambda e, st, a, k: iter([(st, e.T.floor_real(e.to_real(a[0])))]),
         "dateutil.parser.parse": x_dateutil_parse, "dateutil.parser.parser.parse": x_dateutil_parse,
-        "random.uniform": x_uniform, "random.randint": x_randint, "time.time": x_time, "time.sleep": x_sleep,
+        "random.uniform": x_uniform, "random.randint": x_randint, "time.time": x_time, "time.sleep": x_sleep, "time.monotonic": x_monotonic,
         "flexstack.utils.time_service:TimeService.time": x_time,
         "copy.deepcopy": x_deepcopy, "copy.copy": x_copy,
         "struct.unpack": x_struct_unpack, "struct.calcsize": x_struct_calcsize, "struct.Struct": x_struct_struct,
